@@ -146,6 +146,145 @@ Proof.
 Qed.
 End SemEq.
 
+(** ---- a property of the state preserved by every oracle step is preserved by the whole family ---- *)
+Section Pres.
+Variable W : Type.
+Variable run_line : W -> str -> W * list Z.
+Variable for_words : W -> str -> W * list str.
+Variable set_var : W -> str -> str -> W.
+Variable eoe : W -> bool.
+Variable n : nat.
+Variable P : W -> Prop.
+Hypothesis Hrl : forall w l, P w -> P (fst (run_line w l)).
+Hypothesis Hfw : forall w t, P w -> P (fst (for_words w t)).
+Hypothesis Hsv : forall w k v, P w -> P (set_var w k v).
+
+Definition okW (o : outcome W) : Prop := match o with Done w _ _ _ => P w | _ => True end.
+Definition okBr (o : outcome_br W) : Prop := match o with DoneBr w _ _ _ _ => P w | _ => True end.
+
+Ltac ifs := repeat match goal with |- context [if ?c then _ else _] => destruct c end.
+
+Lemma exp_loop_pres rif rfor rwh :
+  (forall t il w, P w -> okW (rif t il w)) -> (forall t w, P w -> okW (rfor t w)) -> (forall t w, P w -> okW (rwh t w)) ->
+  forall pairs il w acc, P w -> okW (exp_loop W run_line eoe rif rfor rwh il pairs w acc).
+Proof.
+  intros H1 H2 H3. induction pairs as [|p r IH]; intros il w acc Hw; cbn [exp_loop]; [exact Hw|].
+  destruct (is_empty (t_txt p)); [apply IH, Hw|].
+  destruct (t_rule p =? L_CMD).
+  { destruct (str_eqb (t_txt p) kw_continue); [destruct il; [exact Hw | apply IH, Hw]|].
+    destruct (str_eqb (t_txt p) kw_break); [destruct il; [exact Hw | apply IH, Hw]|].
+    pose proof (Hrl w (t_txt p) Hw) as Hk. destruct (run_line w (t_txt p)) as [w1 crs]. cbn [fst] in Hk.
+    ifs; [exact Hk | apply IH, Hk]. }
+  destruct (t_rule p =? L_EXP_IF).
+  { pose proof (H1 p il w Hw) as Hk. destruct (rif p il w) as [w1 crs c b| |]; try exact I. cbn [okW] in Hk.
+    ifs; try exact Hk. apply IH, Hk. }
+  destruct (t_rule p =? L_EXP_FOR).
+  { pose proof (H2 p w Hw) as Hk. destruct (rfor p w) as [w1 crs c b| |]; try exact I. cbn [okW] in Hk.
+    ifs; try exact Hk. apply IH, Hk. }
+  destruct (t_rule p =? L_EXP_WHILE).
+  { pose proof (H3 p w Hw) as Hk. destruct (rwh p w) as [w1 crs c b| |]; try exact I. cbn [okW] in Hk.
+    ifs; try exact Hk. apply IH, Hk. }
+  apply IH, Hw.
+Qed.
+
+Lemma br_loop_pres rexp : (forall t il w, P w -> okW (rexp t il w)) ->
+  forall pairs il w tp, P w -> okBr (br_loop W run_line rexp il pairs w tp).
+Proof.
+  intros H1. induction pairs as [|p r IH]; intros il w tp Hw; cbn [br_loop]; [exact Hw|].
+  destruct ((t_rule p =? L_IF_HEAD) || (t_rule p =? L_IF_ELSEIF_HEAD) || (t_rule p =? L_WHILE_HEAD)).
+  { destruct (t_kids p) as [|pt ?]; [exact I|].
+    pose proof (Hrl w (t_txt pt) Hw) as Hk. destruct (run_line w (t_txt pt)) as [w1 crs]. cbn [fst] in Hk. apply IH, Hk. }
+  destruct (t_rule p =? L_KW_ELSE); [apply IH, Hw|].
+  destruct (t_rule p =? L_EXP_BODY); [|exact I].
+  destruct (negb tp); [exact Hw|].
+  pose proof (H1 p il w Hw) as Hk. destruct (rexp p il w); try exact I. exact Hk.
+Qed.
+
+Lemma if_loop_pres rbr : (forall t il w, P w -> okBr (rbr t il w)) ->
+  forall pairs il w acc c b, P w -> okW (if_loop W rbr il pairs w acc c b).
+Proof.
+  intros H1. induction pairs as [|p r IH]; intros il w acc c b Hw; cbn [if_loop]; [exact Hw|].
+  pose proof (H1 p il w Hw) as Hk. destruct (rbr p il w) as [w1 crs ps c1 b1| |]; try exact I. cbn [okBr] in Hk.
+  destruct ps; [exact Hk | apply IH, Hk].
+Qed.
+
+Lemma for_values_pres rexp body var : (forall t il w, P w -> okW (rexp t il w)) ->
+  forall vs w acc, P w -> okW (for_values W set_var eoe rexp body var vs w acc).
+Proof.
+  intros H1. induction vs as [|v vs IH]; intros w acc Hw; cbn [for_values]; [exact Hw|].
+  pose proof (H1 body true (set_var w var v) (Hsv w var v Hw)) as Hk.
+  destruct (rexp body true (set_var w var v)) as [w1 crs c b| |]; try exact I. cbn [okW] in Hk.
+  ifs; [exact Hk | apply IH, Hk].
+Qed.
+
+Lemma for_init_pres : forall kids w acc, P w -> P (fst (get_for_result_from_init W for_words w kids acc)).
+Proof.
+  induction kids as [|p r IH]; intros w acc Hw; cbn [get_for_result_from_init]; [exact Hw|].
+  destruct (t_rule p =? L_TEST); [|apply IH, Hw].
+  pose proof (Hfw w (t_txt p) Hw) as Hk. destruct (for_words w (t_txt p)) as [w1 ws]. apply IH, Hk.
+Qed.
+
+Lemma for_list_pres : forall kids w, P w -> P (fst (get_for_result_list_kids W for_words w kids)).
+Proof.
+  induction kids as [|p r IH]; intros w Hw; cbn [get_for_result_list_kids]; [exact Hw|].
+  destruct (t_rule p =? L_FOR_INIT); [apply for_init_pres, Hw | apply IH, Hw].
+Qed.
+
+Lemma for_loop_pres rexp : (forall t il w, P w -> okW (rexp t il w)) ->
+  forall pairs w acc var rl, P w -> okW (for_loop W for_words set_var eoe rexp pairs w acc var rl).
+Proof.
+  intros H1. induction pairs as [|p r IH]; intros w acc var rl Hw; cbn [for_loop]; [exact Hw|].
+  destruct (t_rule p =? L_FOR_HEAD).
+  { pose proof (for_list_pres (t_kids p) w Hw) as Hk.
+    destruct (get_for_result_list_kids W for_words w (t_kids p)) as [w1 rl1]. apply IH, Hk. }
+  destruct (t_rule p =? L_EXP_BODY); [|apply IH, Hw].
+  pose proof (for_values_pres rexp p var H1 rl w acc Hw) as Hk.
+  destruct (for_values W set_var eoe rexp p var rl w acc) as [w1 crs c b| |]; try exact I. apply IH, Hk.
+Qed.
+
+Lemma while_iter_pres rbr pw : (forall t il w, P w -> okBr (rbr t il w)) ->
+  forall k w acc, P w -> okW (while_iter W eoe rbr pw k w acc).
+Proof.
+  intros H1. induction k as [|k IH]; intros w acc Hw; cbn [while_iter]; [exact I|].
+  pose proof (H1 pw true w Hw) as Hk. destruct (rbr pw true w) as [w1 crs ps c b| |]; try exact I. cbn [okBr] in Hk.
+  ifs; [exact Hk | apply IH, Hk].
+Qed.
+
+Notation RE := (run_exp W run_line for_words set_var eoe n).
+Notation RIF := (run_exp_if W run_line for_words set_var eoe n).
+Notation RFOR := (run_exp_for W run_line for_words set_var eoe n).
+Notation RWH := (run_exp_while W run_line for_words set_var eoe n).
+Notation RBR := (run_exp_test_br W run_line for_words set_var eoe n).
+
+Lemma family_pres : forall d,
+  (forall t il w, P w -> okW (RE d t il w)) /\ (forall t il w, P w -> okW (RIF d t il w)) /\
+  (forall t w, P w -> okW (RFOR d t w)) /\ (forall t w, P w -> okW (RWH d t w)) /\
+  (forall t il w, P w -> okBr (RBR d t il w)).
+Proof.
+  induction d as [|d [I1 [I2 [I3 [I4 I5]]]]].
+  - repeat split; intros; exact I.
+  - repeat split.
+    + intros t il w Hw. apply (exp_loop_pres (RIF d) (RFOR d) (RWH d) I2 I3 I4), Hw.
+    + intros t il w Hw. apply (if_loop_pres (RBR d) I5), Hw.
+    + intros t w Hw. apply (for_loop_pres (RE d) I1), Hw.
+    + intros t w Hw. apply (while_iter_pres (RBR d) t I5), Hw.
+    + intros t il w Hw. apply (br_loop_pres (RE d) I1), Hw.
+Qed.
+
+Lemma run_pairs_pres d : forall pairs w acc, P w -> okW (run_pairs W run_line for_words set_var eoe n d pairs w acc).
+Proof.
+  induction pairs as [|p r IH]; intros w acc Hw; cbn [run_pairs]; [exact Hw|].
+  pose proof (proj1 (family_pres d) p false w Hw) as Hk.
+  destruct (RE d p false w) as [w1 crs c b| |]; try exact I. apply IH, Hk.
+Qed.
+
+Lemma run_lines_pres text w : P w ->
+  match run_lines W run_line for_words set_var eoe n text w with Some o => okW o | None => True end.
+Proof.
+  intro Hw. unfold run_lines. destruct (parse_from l_grammar L_EXP text); try exact I. apply run_pairs_pres, Hw.
+Qed.
+End Pres.
+
 Section Interp.
 Variable W : Type.
 Variable run_line : W -> str -> W * list Z.
@@ -459,3 +598,389 @@ Proof.
 Qed.
 
 End Interp.
+
+Section InterpInv.
+Variable W : Type.
+Variable run_line : W -> str -> W * list Z.
+Variable for_words : W -> str -> W * list str.
+Variable set_var : W -> str -> str -> W.
+Variable eoe : W -> bool.
+Variable e : bool.
+Variable n : nat.
+Variable Inv : W -> Prop.
+Hypothesis Irl : forall w l, Inv w -> Inv (fst (run_line w l)).
+Hypothesis Ifw : forall w t, Inv w -> Inv (fst (for_words w t)).
+Hypothesis Isv : forall w k v, Inv w -> Inv (set_var w k v).
+Hypothesis flag : forall w, Inv w -> eoe w = e.
+Notation OKW := (okW W Inv).
+Notation OKB := (okBr W Inv).
+
+Notation RE := (run_exp W run_line for_words set_var eoe n).
+Notation RIF := (run_exp_if W run_line for_words set_var eoe n).
+Notation RFOR := (run_exp_for W run_line for_words set_var eoe n).
+Notation RWH := (run_exp_while W run_line for_words set_var eoe n).
+Notation RBR := (run_exp_test_br W run_line for_words set_var eoe n).
+Notation XL d := (exp_loop W run_line eoe (RIF d) (RFOR d) (RWH d)).
+Notation SB := (sem_block W run_line for_words set_var e n).
+Notation SS := (sem_stmt W run_line for_words set_var e n).
+Notation SA := (sem_arms W run_line for_words set_var e n).
+
+Lemma run_exp_S_i d t il w : RE (S d) t il w = XL d il (t_kids t) w []. Proof. reflexivity. Qed.
+Lemma run_exp_if_S_i d t il w : RIF (S d) t il w = if_loop W (RBR d) il (t_kids t) w [] false false. Proof. reflexivity. Qed.
+Lemma run_exp_test_br_S_i d t il w : RBR (S d) t il w = br_loop W run_line (RE d) il (t_kids t) w false. Proof. reflexivity. Qed.
+Lemma run_exp_for_S_i d t w : RFOR (S d) t w = for_loop W for_words set_var eoe (RE d) (t_kids t) w [] [] []. Proof. reflexivity. Qed.
+Lemma run_exp_while_S_i d t w : RWH (S d) t w = while_iter W eoe (RBR d) t n w []. Proof. reflexivity. Qed.
+
+Definition prepend_i (acc : list Z) (o : outcome W) : outcome W :=
+  match o with
+  | Done w crs c b => Done w (acc ++ crs) c b
+  | x => x
+  end.
+
+Lemma prepend_nil_i o : prepend_i [] o = o.
+Proof. destruct o; reflexivity. Qed.
+
+Lemma prepend_app_i a b o : prepend_i a (prepend_i b o) = prepend_i (a ++ b) o.
+Proof. destruct o; cbn; [rewrite app_assoc|..]; reflexivity. Qed.
+
+(** the accumulator of run_exp's loop is only ever extended (as long as it does not already ask to exit) *)
+Lemma exp_loop_acc_i rif rfor rwh in_loop pairs :
+  (forall t il w, Inv w -> OKW (rif t il w)) -> (forall t w, Inv w -> OKW (rfor t w)) -> (forall t w, Inv w -> OKW (rwh t w)) ->
+  forall w acc, Inv w ->
+  e && last_is_nonzero acc = false ->
+  exp_loop W run_line eoe rif rfor rwh in_loop pairs w acc =
+  prepend_i acc (exp_loop W run_line eoe rif rfor rwh in_loop pairs w []).
+Proof.
+  intros K1 K2 K3. induction pairs as [|p rest IH]; intros w acc Hw Hacc; cbn [exp_loop].
+  - cbn. rewrite app_nil_r. reflexivity.
+  - destruct (is_empty (t_txt p)); [apply IH; assumption|].
+    destruct (t_rule p =? L_CMD).
+    { destruct (str_eqb (t_txt p) kw_continue).
+      { destruct in_loop; [cbn; rewrite app_nil_r; reflexivity | apply IH; assumption]. }
+      destruct (str_eqb (t_txt p) kw_break).
+      { destruct in_loop; [cbn; rewrite app_nil_r; reflexivity | apply IH; assumption]. }
+      pose proof (Irl w (t_txt p) Hw) as Hk.
+      destruct (run_line w (t_txt p)) as [w1 crs]. cbn [fst] in Hk.
+      rewrite (flag w1 Hk). rewrite !(andb_comm _ e). rewrite (stop_app e acc crs Hacc). cbn [app].
+      destruct (e && last_is_nonzero crs) eqn:St; [reflexivity|].
+      rewrite (IH w1 (acc ++ crs) Hk) by (rewrite stop_app; assumption).
+      rewrite (IH w1 crs Hk St). rewrite prepend_app_i. reflexivity. }
+    destruct (t_rule p =? L_EXP_IF).
+    { pose proof (K1 p in_loop w Hw) as Hk.
+      destruct (rif p in_loop w) as [w1 crs c b| |]; [|reflexivity|reflexivity]. cbn [okW] in Hk.
+      unfold exit_requested. rewrite (flag w1 Hk), (stop_app e acc crs Hacc). cbn [app].
+      destruct (e && last_is_nonzero crs) eqn:St; [reflexivity|].
+      destruct c; [reflexivity|]. destruct b; [reflexivity|].
+      rewrite (IH w1 (acc ++ crs) Hk) by (rewrite stop_app; assumption).
+      rewrite (IH w1 crs Hk St), prepend_app_i. reflexivity. }
+    destruct (t_rule p =? L_EXP_FOR).
+    { pose proof (K2 p w Hw) as Hk.
+      destruct (rfor p w) as [w1 crs c b| |]; [|reflexivity|reflexivity]. cbn [okW] in Hk.
+      unfold exit_requested. rewrite (flag w1 Hk), (stop_app e acc crs Hacc). cbn [app].
+      destruct (e && last_is_nonzero crs) eqn:St; [reflexivity|].
+      rewrite (IH w1 (acc ++ crs) Hk) by (rewrite stop_app; assumption).
+      rewrite (IH w1 crs Hk St), prepend_app_i. reflexivity. }
+    destruct (t_rule p =? L_EXP_WHILE).
+    { pose proof (K3 p w Hw) as Hk.
+      destruct (rwh p w) as [w1 crs c b| |]; [|reflexivity|reflexivity]. cbn [okW] in Hk.
+      unfold exit_requested. rewrite (flag w1 Hk), (stop_app e acc crs Hacc). cbn [app].
+      destruct (e && last_is_nonzero crs) eqn:St; [reflexivity|].
+      rewrite (IH w1 (acc ++ crs) Hk) by (rewrite stop_app; assumption).
+      rewrite (IH w1 crs Hk St), prepend_app_i. reflexivity. }
+    apply IH; assumption.
+Qed.
+
+Lemma nil_ok_i : e && last_is_nonzero [] = false.
+Proof. apply andb_false_r. Qed.
+
+(** for: the value loop is sem_each, given the body *)
+Lemma for_values_sem_i rec body_t (body : W -> outcome W) var :
+  (forall t il w, Inv w -> OKW (rec t il w)) ->
+  (forall w, Inv w -> rec body_t true w = body w) ->
+  forall vs w acc, Inv w -> e && last_is_nonzero acc = false ->
+  for_values W set_var eoe rec body_t var vs w acc = prepend_i acc (sem_each W set_var e body var vs w).
+Proof.
+  intros K Hb. induction vs as [|v vs IH]; intros w acc Hw Hacc; cbn [for_values sem_each].
+  - cbn. rewrite app_nil_r. reflexivity.
+  - pose proof (Isv w var v Hw) as Hv. pose proof (K body_t true _ Hv) as Hk.
+    rewrite (Hb _ Hv) in *. destruct (body (set_var w var v)) as [w1 crs c b| |]; [|reflexivity|reflexivity].
+    cbn [okW] in Hk.
+    unfold exit_requested, stops. rewrite (flag w1 Hk), (stop_app e acc crs Hacc).
+    destruct (b || e && last_is_nonzero crs) eqn:St; [reflexivity|].
+    apply orb_false_iff in St as [_ St].
+    rewrite (IH w1 (acc ++ crs) Hk) by (rewrite stop_app; assumption).
+    destruct (sem_each W set_var e body var vs w1); cbn; [rewrite app_assoc|..]; reflexivity.
+Qed.
+
+(** while: the iteration is sem_iter, given what one test-and-body round does *)
+Lemma while_iter_sem_i rbr pw cond (body : W -> outcome W) :
+  (forall t il w, Inv w -> OKB (rbr t il w)) ->
+  (forall w, Inv w -> rbr pw true w =
+     let '(w1, crs) := run_line w cond in
+     if last_is_zero crs then
+       match body w1 with
+       | Done w2 crs2 c b => DoneBr w2 crs2 true c b
+       | Panic => PanicBr
+       | OutOfFuel => OutOfFuelBr
+       end
+     else DoneBr w1 [] false false false) ->
+  forall k w acc, Inv w -> e && last_is_nonzero acc = false ->
+  while_iter W eoe rbr pw k w acc = prepend_i acc (sem_iter W run_line e cond body k w).
+Proof.
+  intros K Hb. induction k as [|k IH]; intros w acc Hw Hacc; cbn [while_iter sem_iter]; [reflexivity|].
+  pose proof (K pw true w Hw) as Hk. rewrite (Hb w Hw) in *. destruct (run_line w cond) as [w1 crs].
+  destruct (last_is_zero crs).
+  - destruct (body w1) as [w2 crs2 c b| |]; [|reflexivity|reflexivity]. cbn [okBr] in Hk.
+    cbn [negb orb]. unfold exit_requested, stops. rewrite (flag w2 Hk), (stop_app e acc crs2 Hacc).
+    destruct (b || e && last_is_nonzero crs2) eqn:St; [reflexivity|].
+    apply orb_false_iff in St as [_ St].
+    rewrite (IH w2 (acc ++ crs2) Hk) by (rewrite stop_app; assumption).
+    destruct (sem_iter W run_line e cond body k w2); cbn; [rewrite app_assoc|..]; reflexivity.
+  - cbn. rewrite app_nil_r. reflexivity.
+Qed.
+
+(** one branch node (head with a TEST, then the body) *)
+Lemma br_head_body_i rec in_loop hr htxt cond btxt bkids w :
+  ((hr =? L_IF_HEAD) || (hr =? L_IF_ELSEIF_HEAD) || (hr =? L_WHILE_HEAD)) = true ->
+  br_loop W run_line rec in_loop
+    [TNode hr htxt [TNode L_TEST cond []]; TNode L_EXP_BODY btxt bkids] w false =
+  let '(w1, crs) := run_line w cond in
+  if last_is_zero crs then
+    match rec (TNode L_EXP_BODY btxt bkids) in_loop w1 with
+    | Done w2 crs2 c b => DoneBr w2 crs2 true c b
+    | Panic => PanicBr
+    | OutOfFuel => OutOfFuelBr
+    end
+  else DoneBr w1 [] false false false.
+Proof.
+  intros Hr. cbn [br_loop t_rule t_kids t_txt]. rewrite Hr.
+  destruct (run_line w cond) as [w1 crs].
+  destruct (last_is_zero crs); reflexivity.
+Qed.
+
+Definition P_block_i (b : block) : Prop :=
+  wf_block b = true -> forall d in_loop w, (depth_block b <= S d)%nat -> Inv w ->
+  XL d in_loop (kids_of_block b) w [] = SB b in_loop w.
+
+Definition P_stmt_i (s : stmt) : Prop :=
+  wf_stmt s = true -> forall d in_loop w rest, (depth_stmt s <= S d)%nat -> Inv w ->
+  XL d in_loop (tree_of_stmt s :: rest) w [] =
+  then_ W e (SS s in_loop w) (fun w1 => XL d in_loop rest w1 []).
+
+Definition P_arms_i (a : arms) : Prop :=
+  wf_arms a = true -> forall d in_loop w acc, (depth_arms a <= d)%nat -> Inv w ->
+  if_loop W (RBR (S d)) in_loop (nodes_of_arms a) w acc false false =
+  prepend_i acc (SA a in_loop w).
+
+Notation FP := (family_pres W run_line for_words set_var eoe n Inv Irl Ifw Isv).
+Lemma fp_exp d t il w : Inv w -> OKW (RE d t il w). Proof. apply (proj1 (FP d)). Qed.
+Lemma fp_if d t il w : Inv w -> OKW (RIF d t il w). Proof. apply (proj1 (proj2 (FP d))). Qed.
+Lemma fp_for d t w : Inv w -> OKW (RFOR d t w). Proof. apply (proj1 (proj2 (proj2 (FP d)))). Qed.
+Lemma fp_wh d t w : Inv w -> OKW (RWH d t w). Proof. apply (proj1 (proj2 (proj2 (proj2 (FP d))))). Qed.
+Lemma fp_br d t il w : Inv w -> OKB (RBR d t il w). Proof. apply (proj2 (proj2 (proj2 (proj2 (FP d))))). Qed.
+
+Lemma xl_ok d il pairs w acc : Inv w -> OKW (XL d il pairs w acc).
+Proof. intro Hw. apply (exp_loop_pres W run_line eoe Inv Irl (RIF d) (RFOR d) (RWH d) (fp_if d) (fp_for d) (fp_wh d)), Hw. Qed.
+
+Lemma xl_acc d il pairs w acc : Inv w -> e && last_is_nonzero acc = false ->
+  XL d il pairs w acc = prepend_i acc (XL d il pairs w []).
+Proof. intros Hw Ha. apply (exp_loop_acc_i (RIF d) (RFOR d) (RWH d) il pairs (fp_if d) (fp_for d) (fp_wh d)); assumption. Qed.
+
+Lemma run_exp_body_i d b in_loop w :
+  P_block_i b -> wf_block b = true -> (depth_block b <= d)%nat -> Inv w ->
+  RE d (body_node (kids_of_block b) b) in_loop w = SB b in_loop w.
+Proof.
+  intros HP Hwf Hd Hw. destruct d as [|d]; [pose proof (depth_block_pos b); lia|].
+  rewrite run_exp_S_i. unfold body_node. cbn [t_kids]. apply HP; assumption.
+Qed.
+
+Lemma interp_all_i : (forall b, P_block_i b) /\ (forall s, P_stmt_i s) /\ (forall a, P_arms_i a).
+Proof.
+  apply ast_mutind; unfold P_block_i, P_stmt_i, P_arms_i.
+  - (* BNil *) intros _ d in_loop w _ _. reflexivity.
+  - (* BCons *) intros s IHs r IHr Hwf d in_loop w Hd Hw.
+    rewrite wf_block_cons in Hwf. apply andb_prop in Hwf as [Hs Hr].
+    rewrite depth_block_cons in Hd. rewrite kids_cons, sem_block_cons.
+    pose proof (xl_ok d in_loop [tree_of_stmt s] w [] Hw) as Hk.
+    rewrite (IHs Hs d in_loop w []) in Hk by (lia || assumption).
+    rewrite (IHs Hs d in_loop w (kids_of_block r)) by (lia || assumption).
+    unfold then_ in *. destruct (SS s in_loop w) as [w1 crs c b| |]; [|reflexivity|reflexivity].
+    destruct (stops e crs); [reflexivity|].
+    destruct c; [reflexivity|]. destruct b; [reflexivity|].
+    cbn [exp_loop okW] in Hk.
+    rewrite (IHr Hr d in_loop w1) by (lia || assumption). reflexivity.
+  - (* SCmd *) intros ind line Hwf d in_loop w rest _ Hw.
+    cbn [wf_stmt] in Hwf. unfold wf_line in Hwf.
+    apply andb_prop in Hwf as [Hwf H3]. apply andb_prop in Hwf as [H1 H2].
+    apply negb_true_iff in H1, H2, H3.
+    cbn [tree_of_stmt core_stmt exp_loop t_txt t_rule sem_stmt].
+    rewrite H1, H2, H3. rewrite N.eqb_refl.
+    pose proof (Irl w line Hw) as Hk.
+    destruct (run_line w line) as [w1 crs]. cbn [fst] in Hk. rewrite (flag w1 Hk), andb_comm.
+    cbn [app then_]. unfold stops. destruct (e && last_is_nonzero crs) eqn:St; [reflexivity|].
+    rewrite xl_acc by assumption. destruct (XL d in_loop rest w1 []); reflexivity.
+  - (* SBlank *) intros ws _ d in_loop w rest _ _.
+    cbn [tree_of_stmt core_stmt exp_loop t_txt is_empty sem_stmt then_].
+    unfold stops. rewrite nil_ok_i.
+    destruct (XL d in_loop rest w []); reflexivity.
+  - (* SBreak *) intros ind _ d in_loop w rest _ _.
+    cbn [tree_of_stmt core_stmt exp_loop t_txt t_rule sem_stmt].
+    change (is_empty kw_break) with false. change (str_eqb kw_break kw_continue) with false.
+    change (str_eqb kw_break kw_break) with true. rewrite N.eqb_refl. cbn match.
+    destruct in_loop; cbn [then_]; unfold stops; rewrite nil_ok_i; [reflexivity|].
+    destruct (XL d false rest w []); reflexivity.
+  - (* SCont *) intros ind _ d in_loop w rest _ _.
+    cbn [tree_of_stmt core_stmt exp_loop t_txt t_rule sem_stmt].
+    change (is_empty kw_continue) with false. change (str_eqb kw_continue kw_continue) with true.
+    rewrite N.eqb_refl. cbn match.
+    destruct in_loop; cbn [then_]; unfold stops; rewrite nil_ok_i; [reflexivity|].
+    destruct (XL d false rest w []); reflexivity.
+  - (* SIf *) intros ind sp cond body IHb rest0 IHa Hwf d in_loop w rest Hd Hw.
+    rewrite wf_stmt_if in Hwf. apply andb_prop in Hwf as [Hb Ha].
+    rewrite depth_stmt_if in Hd.
+    pose proof (depth_block_pos body) as Hpos.
+    destruct d as [|[|[|d]]]; try lia.
+    rewrite tree_if, sem_if.
+    cbn [exp_loop t_txt t_rule]. rewrite core_if_nonempty.
+    change (L_EXP_IF =? L_CMD) with false. change (L_EXP_IF =? L_EXP_IF) with true. cbn match.
+    rewrite run_exp_if_S_i. cbn [t_kids if_loop]. rewrite run_exp_test_br_S_i. cbn [t_kids].
+    unfold body_node at 1.
+    rewrite br_head_body_i by reflexivity.
+    pose proof (Irl w cond Hw) as Hk1.
+    destruct (run_line w cond) as [w1 crs]. cbn [fst] in Hk1.
+    destruct (last_is_zero crs).
+    + change (TNode L_EXP_BODY (trim (render_block body)) (kids_of_block body)) with (body_node (kids_of_block body) body).
+      pose proof (fp_exp (S d) (body_node (kids_of_block body) body) in_loop w1 Hk1) as Hk2.
+      rewrite (run_exp_body_i (S d) body in_loop w1 IHb Hb) in * by (lia || assumption).
+      unfold then_. destruct (SB body in_loop w1) as [w2 crs2 c b| |]; [|reflexivity|reflexivity].
+      cbn [okW] in Hk2.
+      cbn [app]. unfold exit_requested, stops. rewrite (flag w2 Hk2).
+      destruct (e && last_is_nonzero crs2) eqn:St; [reflexivity|].
+      destruct c; [reflexivity|]. destruct b; [reflexivity|].
+      rewrite xl_acc by assumption. destruct (XL (S (S (S d))) in_loop rest w2 []); reflexivity.
+    + cbn [app].
+      pose proof (if_loop_pres W Inv (RBR (S (S d))) (fp_br (S (S d))) (nodes_of_arms rest0) in_loop w1 [] false false Hk1) as Hk2.
+      rewrite (IHa Ha (S d) in_loop w1 []) in * by (lia || assumption). rewrite prepend_nil_i in *.
+      unfold then_. destruct (SA rest0 in_loop w1) as [w2 crs2 c b| |]; [|reflexivity|reflexivity].
+      cbn [okW] in Hk2.
+      cbn [app]. unfold exit_requested, stops. rewrite (flag w2 Hk2).
+      destruct (e && last_is_nonzero crs2) eqn:St; [reflexivity|].
+      destruct c; [reflexivity|]. destruct b; [reflexivity|].
+      rewrite xl_acc by assumption. destruct (XL (S (S (S d))) in_loop rest w2 []); reflexivity.
+  - (* SFor *) intros ind sp var words body IHb Hwf d in_loop w rest Hd Hw.
+    rewrite wf_stmt_for in Hwf. rewrite depth_stmt_for in Hd.
+    pose proof (depth_block_pos body) as Hpos.
+    destruct d as [|[|d]]; try lia.
+    rewrite tree_for, sem_for.
+    cbn [exp_loop t_txt t_rule]. rewrite core_for_nonempty.
+    change (L_EXP_FOR =? L_CMD) with false. change (L_EXP_FOR =? L_EXP_IF) with false.
+    change (L_EXP_FOR =? L_EXP_FOR) with true. cbn match.
+    rewrite run_exp_for_S_i. cbn [t_kids for_loop t_rule].
+    change (L_FOR_HEAD =? L_FOR_HEAD) with true. cbn match.
+    cbn [get_for_var_name_kids get_for_result_list_kids t_rule t_kids].
+    change (L_FOR_INIT =? L_FOR_INIT) with true. cbn match.
+    cbn [find_for_var get_for_result_from_init t_rule t_txt].
+    change (L_FOR_VAR =? L_FOR_VAR) with true. change (L_FOR_VAR =? L_TEST) with false.
+    change (L_TEST =? L_TEST) with true. cbn match.
+    pose proof (Ifw w words Hw) as Hk1.
+    destruct (for_words w words) as [w1 vs]. cbn [fst] in Hk1. cbn [app].
+    rewrite !t_rule_body_node.
+    change (L_EXP_BODY =? L_FOR_HEAD) with false. change (L_EXP_BODY =? L_EXP_BODY) with true. cbn match.
+    pose proof (for_values_pres W set_var eoe Inv Isv (RE (S d)) (body_node (kids_of_block body) body) var (fp_exp (S d)) vs w1 [] Hk1) as Hk2.
+    rewrite (for_values_sem_i (RE (S d)) _ (SB body true) var (fp_exp (S d))) in *.
+    2,3,5,6: try (intros w' Hw'; apply (run_exp_body_i (S d) body true w' IHb Hwf); (lia || assumption)).
+    2,3,4,5: try assumption; try apply nil_ok_i.
+    rewrite prepend_nil_i in *.
+    unfold then_.
+    destruct (sem_each W set_var e (SB body true) var vs w1) as [w2 crs2 c b| |] eqn:E; [|reflexivity|reflexivity].
+    cbn [okW] in Hk2.
+    destruct (sem_each_flags W set_var e _ _ _ _ _ _ _ _ E) as [-> ->].
+    unfold exit_requested, stops. rewrite (flag w2 Hk2). cbn [app].
+    destruct (e && last_is_nonzero crs2) eqn:St; [reflexivity|].
+    rewrite xl_acc by assumption. destruct (XL (S (S d)) in_loop rest w2 []); reflexivity.
+  - (* SWhile *) intros ind sp cond body IHb Hwf d in_loop w rest Hd Hw.
+    rewrite wf_stmt_while in Hwf. rewrite depth_stmt_while in Hd.
+    pose proof (depth_block_pos body) as Hpos.
+    destruct d as [|[|[|d]]]; try lia.
+    rewrite tree_while, sem_while.
+    cbn [exp_loop t_txt t_rule]. rewrite core_while_nonempty.
+    change (L_EXP_WHILE =? L_CMD) with false. change (L_EXP_WHILE =? L_EXP_IF) with false.
+    change (L_EXP_WHILE =? L_EXP_FOR) with false. change (L_EXP_WHILE =? L_EXP_WHILE) with true. cbn match.
+    rewrite run_exp_while_S_i.
+    pose proof (while_iter_pres W eoe Inv (RBR (S (S d))) (TNode L_EXP_WHILE (core_stmt (SWhile ind sp cond body))
+         [TNode L_WHILE_HEAD (trim (s_while ++ cond ++ s_do sp)) [TNode L_TEST cond []]; body_node (kids_of_block body) body])
+         (fp_br (S (S d))) n w [] Hw) as Hk2.
+    assert (Hround : forall w', Inv w' ->
+       RBR (S (S d)) (TNode L_EXP_WHILE (core_stmt (SWhile ind sp cond body))
+         [TNode L_WHILE_HEAD (trim (s_while ++ cond ++ s_do sp)) [TNode L_TEST cond []]; body_node (kids_of_block body) body]) true w' =
+       let '(w1, crs) := run_line w' cond in
+       if last_is_zero crs then
+         match SB body true w1 with
+         | Done w2 crs2 c b => DoneBr w2 crs2 true c b
+         | Panic => PanicBr
+         | OutOfFuel => OutOfFuelBr
+         end
+       else DoneBr w1 [] false false false).
+    { intros w' Hw'. rewrite run_exp_test_br_S_i. cbn [t_kids]. unfold body_node at 1.
+      rewrite br_head_body_i by reflexivity.
+      pose proof (Irl w' cond Hw') as Hk1.
+      destruct (run_line w' cond) as [w1 crs]. cbn [fst] in Hk1. destruct (last_is_zero crs); [|reflexivity].
+      change (TNode L_EXP_BODY (trim (render_block body)) (kids_of_block body)) with (body_node (kids_of_block body) body).
+      rewrite (run_exp_body_i (S d) body true w1 IHb Hwf) by (lia || assumption). reflexivity. }
+    rewrite (while_iter_sem_i (RBR (S (S d))) _ cond (SB body true) (fp_br (S (S d))) Hround n w [] Hw nil_ok_i) in *.
+    rewrite prepend_nil_i in *. unfold then_.
+    destruct (sem_iter W run_line e cond (SB body true) n w) as [w2 crs2 c b| |] eqn:E; [|reflexivity|reflexivity].
+    cbn [okW] in Hk2.
+    destruct (sem_iter_flags W run_line e _ _ _ _ _ _ _ _ E) as [-> ->].
+    unfold exit_requested, stops. rewrite (flag w2 Hk2). cbn [app].
+    destruct (e && last_is_nonzero crs2) eqn:St; [reflexivity|].
+    rewrite xl_acc by assumption. destruct (XL (S (S (S d))) in_loop rest w2 []); reflexivity.
+  - (* ANone *) intros ind _ d in_loop w acc _ _. cbn. rewrite app_nil_r. reflexivity.
+  - (* AElse *) intros ind body IHb ind_fi Hwf d in_loop w acc Hd Hw.
+    rewrite wf_arms_else in Hwf. rewrite depth_arms_else in Hd.
+    rewrite nodes_else, sem_else.
+    cbn [if_loop]. rewrite run_exp_test_br_S_i. cbn [t_kids br_loop t_rule].
+    change ((L_KW_ELSE =? L_IF_HEAD) || (L_KW_ELSE =? L_IF_ELSEIF_HEAD) || (L_KW_ELSE =? L_WHILE_HEAD)) with false.
+    change (L_KW_ELSE =? L_KW_ELSE) with true. cbn match.
+    rewrite !t_rule_body_node.
+    change ((L_EXP_BODY =? L_IF_HEAD) || (L_EXP_BODY =? L_IF_ELSEIF_HEAD) || (L_EXP_BODY =? L_WHILE_HEAD)) with false.
+    change (L_EXP_BODY =? L_KW_ELSE) with false. change (L_EXP_BODY =? L_EXP_BODY) with true. cbn match.
+    rewrite (run_exp_body_i d body in_loop w IHb Hwf) by (lia || assumption).
+    destruct (SB body in_loop w); reflexivity.
+  - (* AElif *) intros ind sp cond body IHb rest IHa Hwf d in_loop w acc Hd Hw.
+    rewrite wf_arms_elif in Hwf. apply andb_prop in Hwf as [Hb Ha]. rewrite depth_arms_elif in Hd.
+    rewrite nodes_elif, sem_elif.
+    cbn [if_loop]. rewrite run_exp_test_br_S_i. cbn [t_kids].
+    unfold body_node at 1. rewrite br_head_body_i by reflexivity.
+    pose proof (Irl w cond Hw) as Hk1.
+    destruct (run_line w cond) as [w1 crs]. cbn [fst] in Hk1.
+    destruct (last_is_zero crs).
+    + change (TNode L_EXP_BODY (trim (render_block body)) (kids_of_block body)) with (body_node (kids_of_block body) body).
+      rewrite (run_exp_body_i d body in_loop w1 IHb Hb) by (lia || assumption).
+      destruct (SB body in_loop w1); reflexivity.
+    + rewrite app_nil_r. apply IHa; [assumption|lia|assumption].
+Qed.
+
+(** C14_interp under an invariant of the state: if every oracle step preserves [Inv] and [Inv]
+    fixes the value of exit_on_error, the interpreter on the ideal tree is the structured
+    semantics from every state that satisfies [Inv]. *)
+Theorem run_exp_sem_inv : forall b, wf_block b = true ->
+  forall d in_loop w r txt, (depth_block b < d)%nat -> Inv w ->
+  RE d (TNode r txt (kids_of_block b)) in_loop w = SB b in_loop w.
+Proof.
+  intros b Hwf d in_loop w r txt Hd Hw. destruct d as [|d]; [lia|].
+  rewrite run_exp_S_i. cbn [t_kids]. apply (proj1 interp_all_i b Hwf); [lia | exact Hw].
+Qed.
+
+(** ... and from the middle of a body: the rest of the loop, started with the results so far
+    (which do not already ask to exit), is the semantics of the remaining statements. *)
+Theorem run_exp_sem_inv_mid : forall b, wf_block b = true ->
+  forall d in_loop w acc, (depth_block b <= S d)%nat -> Inv w -> e && last_is_nonzero acc = false ->
+  XL d in_loop (kids_of_block b) w acc = prepend_i acc (SB b in_loop w).
+Proof.
+  intros b Hwf d in_loop w acc Hd Hw Ha. rewrite xl_acc by assumption.
+  rewrite (proj1 interp_all_i b Hwf d in_loop w Hd Hw). reflexivity.
+Qed.
+
+End InterpInv.
+
